@@ -26,6 +26,14 @@ fn heavy_filters(rng: &mut crate::rng::Rng, spec: &core::SchemeSpec, n: usize) -
         "any(lower(ay[*])[*] == \"ab\") or len(y) > 1".into(),
         "all(mami[*][*][*] >= 0) xor any(aai[*][*] in {1..5})".into(),
         "concat(y, http.host) contains \"ab\" and ctxfn(y, \"z\") == 2".into(),
+        "y matches \"a\"".into(),
+        "http.host matches \"^ab\" and y matches \"c$\"".into(),
+        "y wildcard \"a*\"".into(),
+        "y strict wildcard \"*c\"".into(),
+        "http.host contains \"bc\"".into(),
+        "y in {\"abc\" \"ab\"}".into(),
+        "lower(y) == \"abc\" and len(http.host) == 3".into(),
+        "lower(http.host) contains \"bc\"".into(),
     ];
     for _ in 0..n {
         let depth = *rng.pick(&[2u32, 3, 4]);
@@ -50,7 +58,14 @@ pub fn run(cfg: Cfg, out: &mut Out) {
             .into_iter()
             .filter(|t| spec.parser(&core.scheme).parse(t).is_ok())
             .collect();
-        let ctx_specs: Vec<_> = (0..6).map(|_| fgen::gen_ctx(&mut rng, &spec)).collect();
+        let mut ctx_specs: Vec<_> = (0..6).map(|_| fgen::gen_ctx(&mut rng, &spec)).collect();
+        // two contexts on which the fixed operator filters are sure to answer differently
+        for (fi, f) in spec.fields.iter().enumerate() {
+            if f.name == "y" || f.name == "http.host" {
+                ctx_specs[0].values[fi] = Some(wirefilter::LhsValue::Bytes(b"abc".to_vec().into()));
+                ctx_specs[1].values[fi] = Some(wirefilter::LhsValue::Bytes(b"xyz".to_vec().into()));
+            }
+        }
         // sequential baseline through the core executor (tied to the model)
         let mut base: Vec<Vec<String>> = vec![vec![String::new(); ctx_specs.len()]; texts.len()];
         for (ci, c) in ctx_specs.iter().enumerate() {
@@ -135,6 +150,58 @@ pub fn run(cfg: Cfg, out: &mut Out) {
                 };
                 out.case(&op, &ans, Some(&op), &["threads", if t >= 16 { "threads.T>=16" } else { "threads.T<16" }]);
             }
+        }
+        // contention phase: ALL threads hammer ONE shared compiled filter at a time, each thread
+        // cycling through the contexts from its own offset, so that executions of the same
+        // filter object with different answers overlap as often as the scheduler allows. State
+        // hidden inside a compiled filter (memo cells, scratch buffers, caches keyed by input)
+        // is only ever exposed by this kind of overlap.
+        let mut hot: Vec<usize> = (0..texts.len()).filter(|&fi| base[fi].iter().any(|a| *a != base[fi][0])).collect();
+        // the fixed operator filters first, then generated ones
+        hot.truncate(if cfg.quick() { 14 } else { 40 });
+        let t = 16usize;
+        let iters = if cfg.quick() { 20_000usize } else { 120_000 };
+        for fi in hot {
+            let barrier = Arc::new(Barrier::new(t));
+            let mut hs = Vec::new();
+            for th in 0..t {
+                let (filters, ctxs, base, barrier) = (filters.clone(), ctxs.clone(), base.clone(), barrier.clone());
+                hs.push(std::thread::spawn(move || -> Option<String> {
+                    let own: Vec<ExecutionContext<'static>> = ctxs.iter().map(|c| c.clone_with(())).collect();
+                    barrier.wait();
+                    let n = own.len();
+                    for k in 0..iters {
+                        let ci = (k + th) % n;
+                        let c = if th % 4 == 0 { &ctxs[ci] } else { &own[ci] };
+                        let got = match filters[fi].execute(c) {
+                            Ok(true) => "true",
+                            Ok(false) => "false",
+                            Err(_) => "exec-err",
+                        };
+                        if got != base[fi][ci] {
+                            return Some(format!("thread {th} iteration {k}: context {ci} gave {got}, sequential result is {}", base[fi][ci]));
+                        }
+                    }
+                    None
+                }));
+            }
+            let mut bad = None;
+            for h in hs {
+                match h.join() {
+                    Ok(None) => {}
+                    Ok(Some(b)) => bad = Some(b),
+                    Err(_) => bad = Some("a worker thread panicked".to_string()),
+                }
+            }
+            let op = format!("oracle threads-hot T={t} round={round} iters={iters} filter={}", hex(texts[fi].as_bytes()));
+            let ans = match &bad {
+                None => "ok".to_string(),
+                Some(b) => {
+                    out.impl_failure(&op, &format!("filter {:?}: {b}", texts[fi]));
+                    "mismatch".to_string()
+                }
+            };
+            out.case(&op, &ans, Some(&op), &["threads.hot"]);
         }
     }
     // first use of lazily initialised state raced in fresh processes
